@@ -14,9 +14,9 @@ WrSlots(s, set, n) ==
   [j \in {IdxOf(s, k) : k \in ks} |-> set[CHOOSE k \in ks : IdxOf(s, k) = j]]
 \* iter_mut: the first nf slots from the front, then up to nb of the remaining ones from the back
 NbOf(op) == IF "nb" \in DOMAIN op THEN op.nb ELSE 0
-Min2(a, b) == IF a < b THEN a ELSE b
+MinOf(a, b) == IF a < b THEN a ELSE b
 IterSlots(s, nf, nb) ==
-  LET len == Len(s.keys)  f == Min2(nf, len)  bk == Min2(nb, len - f) IN
+  LET len == Len(s.keys)  f == MinOf(nf, len)  bk == MinOf(nb, len - f) IN
   {i \in 0..(len-1) : i < f \/ i >= len - bk}
 WrIter(s, set, nf, nb) ==
   LET ks == {k \in DOMAIN set : Has(s, k) /\ IdxOf(s, k) \in IterSlots(s, nf, nb)} IN
